@@ -24,7 +24,10 @@ ALSO = {"C15_m1": ["C05", "C01"], "C01_m2": ["C08", "C06"], "C02_m2": ["C01", "C
         "C15_m7": ["C03"], "C16_m7": ["C11", "C04"], "C18_m7": ["C03", "C01"], "C20_m7": ["C12"],
         "C01_m8": ["C11", "C04"], "C02_m8": ["C01", "C15"], "C03_m8": ["C01"], "C04_m8": ["C08", "C01"], "C05_m8": ["C01", "C15"], "C06_m8": ["C01"],
         "C07_m8": ["C15"], "C08_m8": ["C06"], "C09_m8": ["C11"], "C10_m8": ["C05", "C01"], "C11_m8": ["C01", "C04"], "C15_m8": ["C03", "C18"],
-        "C16_m8": ["C09"], "C17_m8": ["C19"], "C18_m8": ["C04", "C01"], "C19_m8": ["C01"], "C14_m8": ["C04"]}
+        "C16_m8": ["C09"], "C17_m8": ["C19"], "C18_m8": ["C04", "C01"], "C19_m8": ["C01"], "C14_m8": ["C04"],
+        "C01_m9": ["C04", "C08"], "C02_m9": ["C08", "C01"], "C03_m9": ["C01"], "C04_m9": ["C01", "C12"], "C05_m9": ["C01", "C15"], "C06_m9": ["C14", "C11"],
+        "C07_m9": ["C14"], "C08_m9": ["C06"], "C09_m9": ["C16", "C01"], "C10_m9": ["C07"], "C11_m9": ["C04", "C01"], "C12_m9": ["C01"],
+        "C14_m9": ["C06"], "C15_m9": ["C05", "C01"], "C16_m9": ["C09"], "C17_m9": ["C12"], "C19_m9": ["C07", "C10"], "C20_m9": ["C01", "C11"]}
 
 
 def needs_of(notes: str) -> str:
